@@ -92,6 +92,9 @@ func c14Profiles(tier string) []Profile {
 		}
 		return ls
 	}
+	hv := hf
+	hv.Name, hv.CBMask = "flushes-valframed", harness.CBValFramed
+	conc = append(conc, hv.Profile(fmt.Sprintf("the flushes profile (histories of length <= %d) with the ItemValLength / ItemValWrite / ItemValRead triple that stores every value with a two-byte trailer: item record lengths, node aggregates (compared exactly: key length + stored value length) and the tiling of the appended region must all describe the stored form", d-2)))
 	conc = append(conc, hf.Profile(fmt.Sprintf("the flushes profile (histories of length <= %d) with a BeforeItemWrite / AfterItemRead pair that stores every value with a two-byte trailer: every item record must be exactly what BeforeItemWrite returned (the decoder verifies and strips the trailer), lengths in item and node records must describe the stored form, and the appended region must be tiled by the records", d-2)))
 	return append(conc, []Profile{
 		hist.Profile(fmt.Sprintf("every history of length <= %d over the C02 store alphabet plus CopyTo(flushEvery 1,2); after every Flush and for every CopyTo destination an independent decoder of the documented v4 layout (shares no code with gkvlite) must accept every record, find children below their parents, recompute every persisted aggregate, reconstruct exactly the model's flushed state, and the bytes appended by the Flush must be tiled exactly by the item, node and root records reachable from the new root", d)),
